@@ -4,6 +4,7 @@ package main
 
 import (
 	"encoding/json"
+	"regexp"
 	"hash/fnv"
 	"flag"
 	"fmt"
@@ -173,8 +174,23 @@ func cmdCheck(args []string) {
 	lock := LockFile{}
 	_ = readJSON("/verif/obligations.lock.json", &lock)
 	locked := map[string]bool{}
+	lockedClause := map[string]bool{} // contract clauses (obligation name without the occurrence ordinal)
 	for _, n := range lock[*prop] {
 		locked[n] = true
+		lockedClause[clauseOf(n)] = true
+	}
+	// a clause of a contract that was proved on the unchanged tree stays claimed wherever the
+	// current code makes it an obligation: a new return statement or call site failing it is a
+	// regression of that clause, not a new, undecided obligation
+	isLocked := func(o *Obligation) bool {
+		if locked[o.Name] {
+			return true
+		}
+		switch o.Kind {
+		case "ensures", "invariant@entry", "invariant@back", "step", "requires@call", "assert", "globalinv", "frame":
+			return lockedClause[clauseOf(o.Name)]
+		}
+		return false
 	}
 
 	violations := 0
@@ -230,7 +246,7 @@ func cmdCheck(args []string) {
 				continue
 			}
 			// a failing obligation: try to replay a counterexample on the real code
-			inLock := locked[o.Name]
+			inLock := isLocked(o)
 			rp, reproduced := replayObligation(e, o, outDir, work)
 			switch {
 			case reproduced:
@@ -312,6 +328,11 @@ func cmdCheck(args []string) {
 		os.Exit(1)
 	}
 }
+
+var rxOrdinal = regexp.MustCompile(`#\d+$`)
+
+// clauseOf strips the occurrence ordinal from an obligation name.
+func clauseOf(name string) string { return rxOrdinal.ReplaceAllString(name, "") }
 
 func sanitize(s string) string {
 	var b strings.Builder
